@@ -203,11 +203,15 @@ def run_machine(res: Result, r, n, grid=False):
     from .c12 import key_codes
     jobs = []
     mains = {"nop": bytes([0x00, 0x00, 0x13, 0x04]), "halt": bytes([0xDE, 0x00, 0x13, 0x04]),
-             "wait": bytes([0x0B, 0x00, 0x00, 0xEF, 0x00, 0x13, 0x07])}
+             "wait": bytes([0x0B, 0x00, 0x00, 0xEF, 0x00, 0x13, 0x07]),
+             # the program executes the RESET instruction every few steps (control restarts at the entry vector, which
+             # points at the same code): whatever RESET does to the interrupt bookkeeping, the timers keep their grid - no
+             # boundary fires twice, none is skipped
+             "reset": bytes([0x00, 0x00, 0x00, 0x00, 0x00, 0xFF])}
     todo = [None] * n
     if grid:   # complete small grid: every (mti, sti) in {0,1,3} x {0,1,2,5} x WAIT count, timers enabled
         todo = [("wait", w, p_, q_) for p_ in (0, 1, 3) for q_ in (0, 1, 2, 5) for w in (1, 2, 3, 5, 9, 20)] + \
-               [(k_, 0, p_, q_) for k_ in ("nop", "halt") for p_ in (0, 1, 3) for q_ in (0, 1, 2, 5)]
+               [(k_, 0, p_, q_) for k_ in ("nop", "halt", "reset") for p_ in (0, 1, 3) for q_ in (0, 1, 2, 5)]
     for fixed in todo:
         kind = r.choice(list(mains)) if fixed is None else fixed[0]
         code = bytearray(mains[kind])
@@ -293,7 +297,9 @@ def run_machine(res: Result, r, n, grid=False):
                 for bit, per, key in ((0, p, "next_mti"), (1, q, "next_sti")):
                     if per > 0:
                         passed = last[key] // per - 1
-                        exact = kind != "wait"
+                        # (Python ticks at the START of a step: a bit raised there is wiped by the documented "ISR <- 0" of a
+                        #  RESET executed in the same step, so the status bit under-counts on that model - not judged exactly)
+                        exact = kind != "wait" and not (kind == "reset" and model == "py")
                         if (exact and rises[bit] != passed) or (not exact and not (1 <= rises[bit] <= passed if passed else rises[bit] == 0)):
                             bad = ("machine_fire_count", {"timer": key, "rises": rises[bit], "boundaries_passed": passed,
                                                           "cycles": last["cycles"], "period": per})
